@@ -1,9 +1,391 @@
+/-
+C03 — field decoding inverts the standard's encoding, for every encodable value.
+
+Model: the decoder model `Rs1090/Model/Decode/*` (tied to the Rust code by differential execution).
+Spec : `Rs1090/Spec/Encode.lean` (+ `Spec/Altitude.lean`, `Spec/Crc.lean`): encoders written from
+       Annex 10 Vol IV / Doc 9871 / DO-260B.
+
+Layer 1 (this file, first part) — *field codecs*: `decode (encode x) = x`, or within the stated
+quantisation step, over the ENTIRE encodable code space of every field.  Finite code spaces are
+enumerated completely by the kernel (`decide +kernel` on the divide-and-conquer `allBits`); where
+the arithmetic is linear the statement is proved for all values by `omega`.
+
+Layer 2 (second part) — *frames*: the decoder model applied to the Spec frame yields a JSON object
+carrying the encoded values, for ALL values of all the other fields of the frame.
+-/
 import Rs1090.Model.Decode.Message
 import Rs1090.Spec.Encode
 import Rs1090.Props.C13
+import Rs1090.Proofs.C03Frames
 namespace Rs1090.Props.C03
-open Rs1090 Rs1090.Model Rs1090.Spec Rs1090.Spec.Encode
+open Rs1090 Rs1090.Model Rs1090.Spec Rs1090.Spec.Encode Rs1090.Props.C13
 
-theorem placeholder : True := trivial
+/-! ## Enumeration helpers -/
+
+/-- two bounded variables enumerated as one index `x = a·2^db + b` -/
+theorem enum2 {P : Nat → Nat → Prop} [∀ a b, Decidable (P a b)] (da db : Nat)
+    (h : allBits (fun x => decide (P (x / 2 ^ db) (x % 2 ^ db))) (da + db) 0 = true) :
+    ∀ a, a < 2 ^ da → ∀ b, b < 2 ^ db → P a b := by
+  intro a ha b hb
+  have hx : a * 2 ^ db + b < 2 ^ (da + db) := by
+    rw [Nat.pow_add]
+    calc a * 2 ^ db + b < a * 2 ^ db + 2 ^ db := by omega
+      _ = (a + 1) * 2 ^ db := by rw [Nat.add_mul]; omega
+      _ ≤ 2 ^ da * 2 ^ db := Nat.mul_le_mul_right _ (by omega)
+  have := of_decide_eq_true (forall_lt_of_allBits _ (da + db) h _ hx)
+  have hp : 0 < 2 ^ db := Nat.two_pow_pos db
+  rwa [Nat.mul_comm a, Nat.mul_add_div hp, Nat.div_eq_of_lt hb, Nat.mul_add_mod, Nat.mod_eq_of_lt hb,
+    Nat.add_zero] at this
+
+/-- the sign factor of the sign-and-magnitude fields of BDS 0,9: direction bit 0 ↦ +, 1 ↦ − -/
+def signed (sign : Nat) (v : Nat) : Int := if sign = 0 then (v : Int) else -(v : Int)
+
+/-! ## 1. Altitude -/
+
+/-- **25 ft encoding, ME field (BDS 0,5), all 2^11 codes**: the decoder returns `25·N − 1000` ft for
+    every `N > 40`, and "unavailable" for the 41 codes at or below 0 ft (DESIGN §6.1). -/
+theorem alt25_rt : ∀ n, n < 2 ^ 11 →
+    ac12 (ac12Q n) = .ok (if n > 40 then some (25 * n - 1000) else none) :=
+  enum 11 (by decide +kernel)
+
+/-- the same through the 13-bit AC field of DF 0/4/16/20 (C13) -/
+theorem alt25_ac13_rt : ∀ n, n < 2 ^ 11 →
+    ac13 (ac13Q n) = .ok (if n > 40 then 25 * n - 1000 else 0) :=
+  ac13_linear
+
+/-- the value-to-code step of the encoder is exact on the 25 ft grid −1000 … 50 175 ft -/
+theorem n25_exact (a : Int) (h1 : -1000 ≤ a) (h2 : a ≤ 50175) (hg : (a + 1000) % 25 = 0) :
+    n25 a < 2 ^ 11 ∧ (25 * (n25 a : Int) - 1000 = a) := by
+  unfold n25; omega
+
+/-- **Gillham encoding, ME field, all 1280 steps**: `−1200 + 100·s` ft when it is ≥ 0 and fits the
+    16-bit result, otherwise unavailable -/
+theorem gillham_rt : ∀ s, s < 2 ^ 11 → s < GILLHAM_STEPS →
+    ac12 (ac12G s) = .ok (if 12 ≤ s ∧ 100 * (s - 12) < 65536 then some (100 * (s - 12)) else none) :=
+  enum 11 (by decide +kernel)
+
+/-- … and through the 13-bit AC field (C13) -/
+theorem gillham_ac13_rt : ∀ s, s < 2 ^ 11 → s < GILLHAM_STEPS →
+    ac13 (ac13G s) = .ok (if 12 ≤ s ∧ 100 * (s - 12) < 65536 then 100 * (s - 12) else 0) :=
+  ac13_gillham
+
+theorem gillhamStep_exact (a : Int) (h1 : -1200 ≤ a) (h2 : a ≤ 126700) (hg : (a + 1200) % 100 = 0) :
+    gillhamStep a < GILLHAM_STEPS ∧ (100 * (gillhamStep a : Int) - 1200 = a) := by
+  unfold gillhamStep GILLHAM_STEPS; omega
+
+/-! ## 2. Identity code (squawk) -/
+
+/-- **all 4096 squawks**: the decoder reports the four octal digits A B C D (as hex nibbles) -/
+theorem squawk_rt : ∀ q, q < 2 ^ 12 →
+    decodeId13 (id13OfOctal q)
+      = 0x1000 * ((q >>> 9) % 8) + 0x100 * ((q >>> 6) % 8) + 0x10 * ((q >>> 3) % 8) + q % 8 :=
+  id13_onto
+
+/-! ## 3. Aircraft identification characters -/
+
+/-- per position: the decoder's table inverts the IA-5 subset on all 36 letters and digits -/
+theorem char_rt : ∀ n, n < 2 ^ 7 → (65 ≤ n ∧ n ≤ 90) ∨ (48 ≤ n ∧ n ≤ 57) →
+    idx Gen.Chars.charLookup08 (codeOfIA5 n) = .ok n ∧ codeOfIA5 n ≠ 32 ∧ codeOfIA5 n < 64 :=
+  enum 7 (by decide +kernel)
+
+theorem validChar_toNat (c : Char) (h : isLetter c = true ∨ isDigit c = true) :
+    (65 ≤ c.toNat ∧ c.toNat ≤ 90) ∨ (48 ≤ c.toNat ∧ c.toNat ≤ 57) := by
+  simp only [isLetter, isDigit, Bool.and_eq_true, decide_eq_true_eq] at h
+  exact h
+
+theorem charCode_spec (c : Char) (h : isLetter c = true ∨ isDigit c = true) :
+    idx Gen.Chars.charLookup08 (charCode c) = .ok c.toNat ∧ charCode c ≠ 32 ∧ charCode c < 64 := by
+  have hv := validChar_toNat c h
+  exact char_rt c.toNat (by omega) hv
+
+/-- the model's character mapping (`callsign_read` after the 6-bit reads): drop code 32, look the rest up -/
+def decodeCodes (codes : List Nat) : Outcome (List Char) :=
+  Bds08.callsign.go (codes.filter (· != 32))
+
+theorem go_map_charCode : ∀ cs : List Char, (∀ c ∈ cs, isLetter c = true ∨ isDigit c = true) →
+    Bds08.callsign.go (cs.map charCode) = .ok cs
+  | [], _ => rfl
+  | c :: rest, h => by
+    have hc := charCode_spec c (h c (by simp))
+    have ih := go_map_charCode rest (fun x hx => h x (by simp [hx]))
+    simp only [List.map_cons, Bds08.callsign.go]
+    show Outcome.bind _ _ = _
+    rw [hc.1, Outcome.bind_ok]
+    show Outcome.bind _ _ = _
+    rw [ih, Outcome.bind_ok]
+    show Outcome.ok _ = _
+    rw [Char.ofNat_toNat]
+
+theorem filter_codes (cs : List Char) (h : ∀ c ∈ cs, isLetter c = true ∨ isDigit c = true) (k : Nat) :
+    (cs.map charCode ++ List.replicate k SPACE).filter (· != 32) = cs.map charCode := by
+  rw [List.filter_append]
+  have h1 : (cs.map charCode).filter (· != 32) = cs.map charCode := by
+    apply List.filter_eq_self.2
+    intro x hx
+    obtain ⟨c, hc, rfl⟩ := List.mem_map.1 hx
+    have := (charCode_spec c (h c hc)).2.1
+    simpa using this
+  have h2 : (List.replicate k SPACE).filter (· != 32) = [] := by
+    apply List.filter_eq_nil_iff.2
+    intro x hx
+    have := List.eq_of_mem_replicate hx
+    simp [this, SPACE]
+  rw [h1, h2, List.append_nil]
+
+/-- **call signs**: every call sign a transponder may send (≤ 8 letters / digits, padded with trailing
+    spaces — all 37^k·pad strings, by structure of the list, each position through `char_rt`) decodes
+    to exactly itself -/
+theorem callsign_rt (cs : List Char) (h : validCallsign cs) :
+    decodeCodes (callsignCodes cs) = .ok cs := by
+  unfold decodeCodes callsignCodes
+  rw [filter_codes cs h.2, go_map_charCode cs h.2]
+
+/-! ## 4. BDS 0,9 airborne velocity -/
+
+/-- **velocity components, all 2 × 1023 codes of each component**: code `v + 1` with direction bit
+    `sign` decodes to exactly `±v` (knots for subtype 1).  The reported ground speed and track are
+    the symbolic nodes `hypot(|ew|, |ns|)` and `atan2(ew, ns)` of exactly these components (frame
+    theorem `df17_velocity_ground`). -/
+theorem vel_gs_rt : ∀ sign, sign < 2 ^ 1 → ∀ v, v < 2 ^ 10 → v < 1023 →
+    Bds09.velComponent sign (speedCode v) = .ok (signed sign v) :=
+  enum2 1 10 (by decide +kernel)
+
+/-- heading (subtypes 3, 4): the 10-bit code `h` is reported as `h·360/1024` degrees, exactly -/
+theorem heading_rt (h : Nat) :
+    (Bds09.headingNum h : Int) * 1024 = (h : Int) * 360 * Bds09.headingDen := by
+  simp [Bds09.headingNum, Bds09.headingDen]
+
+/-- **airspeed, all 1023 codes**: subsonic LSB 1 kt, supersonic LSB 4 kt -/
+theorem airspeed_rt : ∀ v, v < 2 ^ 10 → v < 1023 →
+    Bds09.airspeedSub (speedCode v) = .ok (some v) ∧ Bds09.airspeedSuper (speedCode v) = .ok (some (4 * v)) :=
+  enum 10 (by decide +kernel)
+
+/-- **vertical rate, all 2 × 511 codes**: `±64·n` ft/min -/
+theorem vrate_rt : ∀ sign, sign < 2 ^ 1 → ∀ n, n < 2 ^ 9 → n < 511 →
+    Bds09.vrate sign (vrateCode n) = .ok (some (signed sign (64 * n))) :=
+  enum2 1 9 (by decide +kernel)
+
+/-- **GNSS height minus barometric altitude, all 2 × 127 codes** (including 0 ft): `±25·n` ft -/
+theorem geobaro_rt : ∀ sign, sign < 2 ^ 1 → ∀ n, n < 2 ^ 7 → n < 127 →
+    Bds09.geoBaro sign (geoBaroCode n) = .ok (some (signed sign (25 * n))) :=
+  enum2 1 7 (by decide +kernel)
+
+/-! ## 5. BDS 0,6 surface position -/
+
+/-- the rational `n/d` reported by the decoder equals `k/8` knots -/
+def isEighths (j : Option Json) (k : Nat) : Bool :=
+  match j with
+  | some (.num n d) => n * 8 == (k : Int) * d && d != 0
+  | _ => false
+
+/-- **movement, all 124 codes**: the decoder reports the lower edge of the standard's speed bucket -/
+theorem movement_codes : ∀ m, m < 2 ^ 7 → 1 ≤ m → m ≤ 124 →
+    isEighths (Bds06.groundspeed m) (movLow8 m) = true :=
+  enum 7 (by decide +kernel)
+
+/-- **movement, every ground speed** (in eighths of a knot, 0 … 256 kt): the encoder picks the bucket
+    containing the speed, and the decoded value is that bucket's lower edge: within one
+    quantisation step below the true speed.  From 175 kt on the code saturates at 124. -/
+theorem movement_rt : ∀ e, e < 2 ^ 11 →
+    1 ≤ movementCode e ∧ movementCode e ≤ 124 ∧
+    isEighths (Bds06.groundspeed (movementCode e)) (movLow8 (movementCode e)) = true ∧
+    movLow8 (movementCode e) ≤ e ∧ (e < 1400 → e < movLow8 (movementCode e + 1)) :=
+  enum 11 (by decide +kernel)
+
+/-- ground track: the 7-bit code `t` is reported as `t·360/128` degrees (frame theorem); exactness of
+    the scale is definitional -/
+theorem surface_track_rt (t : Nat) : ((t * 360 : Nat) : Int) * 128 = (t : Int) * 360 * 128 := by
+  simp
+
+/-! ## 6. BDS 6,2 target state and status -/
+
+/-- **selected altitude, the whole 100 ft grid 0 … 65 400 ft**: exact -/
+theorem selalt62_rt : ∀ k, k < 2 ^ 10 → k ≤ 654 →
+    selAlt62Code (100 * k) < 2 ^ 11 ∧
+    Bds62.selectedAltitude (selAlt62Code (100 * k)) = .ok (some (100 * k)) :=
+  enum 10 (by decide +kernel)
+
+/-- |a/2^24 − t/10| < 1/10000 -/
+def qnhClose (num tenths : Nat) : Bool :=
+  decide (((num : Int) * 10 - (tenths : Int) * 2 ^ 24).natAbs * 10000 < 10 * 2 ^ 24)
+
+/-- **barometric pressure setting, all 511 codes**: the code reports the single-precision value of
+    `800 + 0.8·(n − 1)`; it differs from the ideal value by less than 0.0001 mb (the quantisation
+    step is 0.8 mb) -/
+theorem qnh62_rt : ∀ n, n < 2 ^ 9 → 1 ≤ n →
+    Bds62.barometricSetting n = .ok (some (Bds62.qnhF32Num n, Bds62.qnhDen)) ∧
+    qnhClose (Bds62.qnhF32Num n) (8000 + 8 * (n - 1)) = true ∧
+    qnh62Code (8000 + 8 * (n - 1)) = n :=
+  enum 9 (by decide +kernel)
+
+/-- selected heading: the 9-bit code (sign + 8 bits) `h` is reported as `h·180/256` = `h·360/512` degrees -/
+theorem selhdg62_rt (h : Nat) : (Bds62.headingNum h : Int) * 512 = (h : Int) * 360 * Bds62.headingDen := by
+  simp [Bds62.headingNum, Bds62.headingDen]; omega
+
+/-! ## 7. BDS 4,0 selected vertical intention -/
+
+/-- **MCP/FCU and FMS selected altitude, the whole 100 ft grid 0 … 45 000 ft** (the register's own
+    plausibility limit): exact -/
+theorem selalt40_rt : ∀ k, k < 2 ^ 9 → k ≤ 450 →
+    selAlt40Code (100 * k) < 2 ^ 12 ∧
+    Bds40.selectedAlt true (selAlt40Code (100 * k)) = .ok (some (100 * k)) :=
+  enum 9 (by decide +kernel)
+
+/-- **barometric pressure setting, all 4096 codes**: `800 + 0.1·v` mb, reported in tenths (`(v + 8000)/10`) -/
+theorem qnh40_rt : ∀ v, v < 2 ^ 12 →
+    Bds40.qnhNum true v = .ok (some (v + 8000)) ∧ qnh40Code (8000 + v) = v :=
+  enum 12 (by decide +kernel)
+
+/-! ## 8. BDS 5,0 track and turn report (under the register's own validity rules) -/
+
+/-- signed LSB counts `k ∈ [−half, half)` enumerated through the index `i = k + half` -/
+theorem enumInt {P : Int → Prop} [DecidablePred P] (d half : Nat) (hd : 2 ^ d = 2 * half)
+    (h : allBits (fun i => decide (P ((i : Int) - half))) d 0 = true) :
+    ∀ k : Int, -(half : Int) ≤ k → k < half → P k := by
+  intro k h1 h2
+  have hi : (k + half).toNat < 2 ^ d := by omega
+  have := of_decide_eq_true (forall_lt_of_allBits _ d h _ hi)
+  have e : (((k + half).toNat : Nat) : Int) - half = k := by omega
+  rwa [e] at this
+
+/-- **roll angle, every code with |roll| ≤ 50°** (|k| ≤ 284 LSBs of 45/256°): exact (`k·45/256`) -/
+theorem roll50_rt : ∀ k : Int, -512 ≤ k → k < 512 → k.natAbs ≤ 284 →
+    Bds50.roll true (signBit k) (twosMag 9 k) = .ok (some k) :=
+  enumInt 10 512 (by decide) (by decide +kernel)
+
+/-- **true track angle, all 2048 codes**: `k·90/512` degrees brought into [0, 360) -/
+theorem track50_rt : ∀ k : Int, -1024 ≤ k → k < 1024 →
+    Bds50.track true (signBit k) (twosMag 10 k) = .ok (some ((k * 90) % (360 * 512))) :=
+  enumInt 11 1024 (by decide) (by decide +kernel)
+
+/-- **ground speed, every code up to 600 kt**: `2·v` kt -/
+theorem gs50_rt : ∀ v, v < 2 ^ 9 → v ≤ 300 → Bds50.groundspeed true v = .ok (some (2 * v)) :=
+  enum 9 (by decide +kernel)
+
+/-- the twos-complement split of a 9-bit-magnitude field -/
+theorem signed512 : ∀ k : Int, -512 ≤ k → k < 512 →
+    twosMag 9 k < 2 ^ 9 ∧ signBit k < 2 ∧ Bds50.signed 512 (signBit k) (twosMag 9 k) = .ok k ∧
+    (twosMag 9 k = 511 ↔ (k = -1 ∨ k = 511)) :=
+  enumInt 10 512 (by decide) (by decide +kernel)
+
+/-- **track angle rate, every code except the two the register treats as "no value" (±: magnitude bits
+    all ones)**, with a roll angle of the same sign (or none): exact, `k·8/256` °/s -/
+theorem rate50_rt (rollN : Option Int) (k : Int) (h1 : -512 ≤ k) (h2 : k < 511) (h3 : k ≠ -1)
+    (hc : ∀ n, rollN = some n → (0 ≤ n ∧ 0 ≤ k) ∨ (n ≤ 0 ∧ k ≤ 0)) :
+    Bds50.rate rollN true (signBit k) (twosMag 9 k) = .ok (some (k * 8)) := by
+  obtain ⟨_, _, hs, h511⟩ := signed512 k h1 (by omega)
+  have hne : (twosMag 9 k == 511) = false := by
+    have : twosMag 9 k ≠ 511 := fun h => by rcases h511.1 h with h | h <;> omega
+    simpa using this
+  unfold Bds50.rate
+  simp only [Bool.not_true, Bool.false_eq_true, if_false, hne]
+  show Outcome.bind _ _ = _
+  rw [hs, Outcome.bind_ok]
+  cases rollN with
+  | none => rfl
+  | some n =>
+    have hnn : ¬ (n * 45 * (k * 8) < 0) := by
+      have : 0 ≤ n * 45 * (k * 8) := by
+        rcases hc n rfl with ⟨a, b⟩ | ⟨a, b⟩
+        · exact Int.mul_nonneg (Int.mul_nonneg a (by decide)) (Int.mul_nonneg b (by decide))
+        · have := Int.mul_nonneg (Int.neg_nonneg_of_nonpos (a := n * 45) (by omega))
+            (Int.neg_nonneg_of_nonpos (a := k * 8) (by omega))
+          rwa [Int.neg_mul_neg] at this
+      omega
+    simp only [hnn, if_false]
+
+/-- **true airspeed**: without a ground speed every code is reported (`2·t` kt); with a ground speed
+    `g` (kt) the register requires 80 ≤ TAS ≤ 500 kt and |GS − TAS| ≤ 200 kt, and then reports `2·t` -/
+theorem tas50_rt (gs : Option Nat) (t : Nat) (ht : t < 2 ^ 10)
+    (hc : ∀ g, gs = some g → g ≤ 600 ∧ 80 ≤ 2 * t ∧ 2 * t ≤ 500 ∧ g ≤ 2 * t + 200 ∧ 2 * t ≤ g + 200) :
+    Bds50.tas gs true t = .ok (some (2 * t)) := by
+  unfold Bds50.tas
+  simp only [Bool.not_true, Bool.false_eq_true, if_false]
+  show Outcome.bind _ _ = _
+  rw [mulU_ok (by omega), Outcome.bind_ok]
+  cases gs with
+  | none => simp only [Nat.mul_comm]
+  | some g =>
+    obtain ⟨a, b, c, d, e⟩ := hc g rfl
+    have hin : inS 16 ((g : Int) - ((t * 2 : Nat) : Int)) = true := by
+      simp only [inS, Bool.and_eq_true, decide_eq_true_eq]; omega
+    simp only []
+    show Outcome.bind _ _ = _
+    unfold subS
+    rw [if_pos hin, Outcome.bind_ok]
+    show Outcome.bind _ _ = _
+    unfold Bds50.absS16
+    have hne : (((g : Int) - ((t * 2 : Nat) : Int)) == -32768) = false := by
+      simp only [beq_eq_false_iff_ne, ne_eq]; omega
+    rw [hne]
+    simp only [Bool.false_eq_true, if_false, Outcome.bind_ok]
+    have hcond : (!(decide (80 ≤ t * 2) && decide (t * 2 ≤ 500)) ||
+        decide (Int.ofNat ((g : Int) - ((t * 2 : Nat) : Int)).natAbs > 200)) = false := by
+      simp only [Bool.or_eq_false_iff, Bool.not_eq_false', Bool.and_eq_true, decide_eq_true_eq,
+        decide_eq_false_iff_not, Int.ofNat_eq_natCast]
+      omega
+    rw [hcond]
+    simp only [Bool.false_eq_true, if_false, Nat.mul_comm]
+
+/-! ## 9. BDS 6,0 heading and speed report (under the register's own validity rules) -/
+
+/-- **magnetic heading, all 2048 codes**: `k·90/512` degrees brought into [0, 360) -/
+theorem heading60_rt : ∀ k : Int, -1024 ≤ k → k < 1024 →
+    Bds60.heading true (signBit k) (twosMag 10 k) = .ok (some ((k * 90) % (360 * 512))) :=
+  enumInt 11 1024 (by decide) (by decide +kernel)
+
+/-- **indicated airspeed, every code 1 … 500 kt**: exact -/
+theorem ias60_rt : ∀ v, v < 2 ^ 10 → 1 ≤ v → v ≤ 500 → Bds60.ias true v = .ok (some v) :=
+  enum 10 (by decide +kernel)
+
+/-- **Mach, every code 1 … 250 (Mach ≤ 1)**, with an indicated airspeed that passes the register's
+    cross-check (or none): the code itself is accepted; it is reported as `v·2.048/512 = v/250` -/
+theorem mach60_rt (iasV : Option Nat) (v : Nat) (h1 : 1 ≤ v) (h2 : v ≤ 250)
+    (hc : ∀ i, iasV = some i → ¬ (i > 250 ∧ v < 100) ∧ ¬ (i < 150 ∧ v > 125)) :
+    Bds60.mach iasV true v = .ok (some v) := by
+  unfold Bds60.mach Bds60.machEq0 Bds60.machGt1
+  have e1 : ((v == 0) || decide (v > 250)) = false := by
+    simp only [Bool.or_eq_false_iff, beq_eq_false_iff_ne, decide_eq_false_iff_not]; omega
+  simp only [Bool.not_true, Bool.false_eq_true, if_false, e1]
+  cases iasV with
+  | none => rfl
+  | some i =>
+    obtain ⟨a, b⟩ := hc i rfl
+    have c1 : (decide (i > 250) && Bds60.machLt04 v) = false := by
+      simp only [Bds60.machLt04, Bool.and_eq_false_iff, decide_eq_false_iff_not]; omega
+    have c2 : (decide (i < 150) && Bds60.machGt05 v) = false := by
+      simp only [Bds60.machGt05, Bool.and_eq_false_iff, decide_eq_false_iff_not]; omega
+    simp only [c1, c2, Bool.false_eq_true, if_false]
+
+/-- the reported Mach number `v·2048/512000` is the standard's `v·2.048/512` -/
+theorem mach60_scale (v : Nat) : ((v * 2048 : Nat) : Int) * 512 * 1000 = (v : Int) * 2048 * 512000 := by
+  omega
+
+/-- **barometric altitude rate / inertial vertical velocity, every code with |rate| ≤ 6000 ft/min**:
+    `32·k` ft/min, except that −32 ft/min (magnitude bits all ones) is reported as 0 — within one
+    quantisation step -/
+theorem vrate60_rt : ∀ k : Int, -512 ≤ k → k < 512 → k.natAbs ≤ 187 →
+    Bds60.vertical true (signBit k) (twosMag 9 k) = .ok (some (if k = -1 then 0 else 32 * k)) :=
+  enumInt 10 512 (by decide) (by decide +kernel)
+
+/-! ## 10. ICAO address -/
+
+def hexValue : List Char → Option Nat
+  | [] => some 0
+  | cs => cs.foldl (fun acc c => acc.bind fun a => (hexVal c).map fun d => a * 16 + d) (some 0)
+
+theorem hexDigit_rt : ∀ d, d < 2 ^ 4 → hexVal (hexDigit d) = some d := enum 4 (by decide +kernel)
+
+/-- **every 24-bit address**: the six hex digits the decoder prints denote the address that was sent -/
+theorem address_rt (a : Nat) (h : a < 2 ^ 24) : hexValue (hexChars 6 a) = some a := by
+  have e : hexChars 6 a = [hexDigit (a / 16 ^ 5 % 16), hexDigit (a / 16 ^ 4 % 16), hexDigit (a / 16 ^ 3 % 16),
+      hexDigit (a / 16 ^ 2 % 16), hexDigit (a / 16 ^ 1 % 16), hexDigit (a / 16 ^ 0 % 16)] := by
+    simp [hexChars, List.range, List.range.loop]
+  rw [e]
+  simp only [hexValue, List.foldl, Option.bind]
+  repeat rw [hexDigit_rt _ (by omega)]
+  simp only [Option.map]
+  congr 1
+  omega
 
 end Rs1090.Props.C03
